@@ -129,6 +129,43 @@ def ble_drop_reasons(ctx: Ctx) -> None:
                 res.violation(f"C09/over-bound/{name}", f"{name}: drop reported after 0.01 s, call ended after {rec.t_ret - rec.t_call:.4f}s", case)
 
 
+def ble_status_update_then_answer(ctx: Ctx) -> None:
+    """While a Bluetooth request is in flight the proxy sends a connection-state message for that peripheral that is NOT a drop (connected=True, an
+    MTU / status update) and then the regular answer - separately or in one chunk.  However the library reads the first message, the call ends with
+    its result or with an error from the library's hierarchy, never with a raw ValueError / IndexError from unpacking what it collected."""
+    from aioesphomeapi.core import APIConnectionError
+    from vf.props import c16
+
+    res = ctx.res
+    idx = 0
+    for name in c16.OPS:
+        if name in ("device_connect", "device_disconnect"):
+            continue
+        for groups in (None, [2]):
+            for extra in ([], [["conn", c16.A, 1]]):
+                idx += 1
+                if not ctx.mine(300 + idx):
+                    continue
+                case_ = {"ops": [{"op": name, "addr": c16.A, "handle": 1}], "replies": [["conn", c16.A, 1]] + extra + [["T", 0]], "answer_disconnect": False}
+                if groups:
+                    case_["groups"] = [len(case_["replies"])]
+                o = c16.run_case(case_)
+                if o.get("error"):
+                    res.inconclusive.append(f"BLE status-update scenario: {o['error']}")
+                    continue
+                rec = o["recs"][0]
+                res.evaluations += 1
+                res.count("baseline/ble-status-update-then-answer")
+                res.count("oracle_evaluations")
+                res.sigs.add(f"ble-status/{name}/{bool(groups)}/{len(extra)}")
+                case = {"spec": None, "ble_op": name, "status_update_then_answer": True, "one_chunk": bool(groups)}
+                if not rec.done:
+                    res.violation(f"C09/hang/{name}", f"{name}: status update + answer arrived but the call is still pending", case)
+                elif rec.outcome == "raised" and not isinstance(rec.exc, APIConnectionError):
+                    res.violation(f"C09/raw-exception/{name}/{type(rec.exc).__name__}", f"{name}: the proxy sent a connected=True status update for the peripheral and then "
+                                  f"the answer; the call raised {rec.exc!r}", case, trace=o["trace"][-20:])
+
+
 def short_reject_then_hangup(ctx: Ctx) -> None:
     """An encrypted-only device answers a plaintext client with the first byte(s) of its reject - 1, 2 or 3 bytes starting with the 0x01
     indicator - and hangs up (FIN or RST), at once or a moment later; or a peer sends one byte of garbage and hangs up.  The first cause is what
@@ -329,6 +366,7 @@ def shard(ctx: Ctx) -> None:
     overlapping_disconnects(ctx)
     ble_time_bounds(ctx)
     ble_drop_reasons(ctx)
+    ble_status_update_then_answer(ctx)
     rejection_then_hangup(ctx)
     sweep.standard_sweep(ctx, PROP)
     sweep.same_turn_pairs_sweep(ctx, PROP)
